@@ -36,6 +36,9 @@ type Hist struct {
 	aborted    string
 	copyN      int
 	sizeOracle bool
+	bkObs      []string // observation of the last backup, taken right after the call
+	bkOO       ObsOpts
+	bkOpts     OpenOpts
 	segVer     map[int64]ref.Version // C17: version each existing segment is expected to have (by base)
 }
 
